@@ -22,8 +22,11 @@ def available():
     return os.path.isdir(os.path.join(DEPS, "atheris"))
 
 
+HEAVY = {"C13", "C14"}      # targets that make ~15 verifier calls per input (about 1 000 exec/s)
+
+
 def campaigns(tier, prop):
-    runs = 12000 if tier == "quick" else 1000000
+    runs = 12000 if tier == "quick" else (300000 if prop in HEAVY else 2000000)
     n = 2 if tier == "quick" else 8
     for i in range(n):
         for corpus in ("empty", "seeded"):
